@@ -37,6 +37,8 @@ static uint64_t ctl_rng;
 static long ctl_spin_run;          /* consecutive spin-only events */
 static long ctl_spin_limit = 60000;
 static int ctl_deadlock;
+static int ctl_cur_neutral;
+static long ctl_demote_at = -1; static int ctl_demoted = -1; static long ctl_demote_spins;  /* delay one participant at one event */
 static int ctl_switch_den = 4;     /* at a non-spin point the holder is preempted with prob 1/den */
 static long ctl_events, ctl_switches, ctl_preempt;
 static FILE * ctl_log;
@@ -131,10 +133,19 @@ static int ctl_pick(int self, int spin) {
     /* past the end of the recording (or an impossible choice): run whoever can progress */
   }
   int nonspin[CTL_MAXP], nn = 0, all[CTL_MAXP], na = 0;
+  /* delay strategy: the participant that performed event number CTL_DEMOTE_AT is not scheduled
+     again until everybody else has only been spinning for a while */
+  if (ctl_demote_at >= 0 && ctl_events == ctl_demote_at && !spin && ctl_np > 1) { ctl_demoted = self; ctl_demote_spins = 0; }
+  if (ctl_demoted >= 0) {
+    if (spin) { if (++ctl_demote_spins > 40 * ctl_np) ctl_demoted = -1; } else if (self != ctl_demoted && !ctl_cur_neutral) ctl_demote_spins = 0;
+  }
   for (int i = 0; i < ctl_np; i++) {
+    if (i == ctl_demoted) continue;
     if (i == self) { all[na++] = i; if (!spin) nonspin[nn++] = i; }
     else if (ctl_parked[i]) { all[na++] = i; if (!ctl_spinning[i]) nonspin[nn++] = i; }
   }
+  if (na == 0) { ctl_demoted = -1; return self; }
+  if (self == ctl_demoted) { if (nn > 0) return nonspin[ctl_rand() % nn]; return all[ctl_rand() % na]; }
   if (!spin && !ctl_replay) {
     /* holder at a real point: keep going unless preempted */
     if (ctl_rand() % ctl_switch_den != 0) return self;
@@ -180,7 +191,12 @@ static void ctl_hook(int pt, const void * a, const void * b, long v) {
   /* a released descriptor loses its thread name (the block will be recycled) */
   if (abspt == MYTH_VP_DESC_FREE) for (int i = 0; i < ctl_nth; i++) if (ctl_thp[i] == b) ctl_thp[i] = 0;
   if (abspt == MYTH_VP_BLOCK_CB_END) ctl_cbfor[p] = -1;
-  if (spin) {
+  /* run-queue internals (spin-lock CAS, fences, work-stealing queue accesses, ids 200..299) are neutral
+     for the deadlock verdict: an idle worker's failed steal attempts are not progress */
+  int neutral = abspt >= 200 && abspt < 300;
+  if (neutral) {
+    /* nothing */
+  } else if (spin) {
     ctl_spin_run++;
     if (ctl_spin_run > ctl_spin_limit && !ctl_deadlock) {
       ctl_deadlock = 1;
@@ -194,6 +210,7 @@ static void ctl_hook(int pt, const void * a, const void * b, long v) {
     ctl_spin_run = 0;
   }
   if (time(0) - ctl_t0 > 100) { printf("HARNESS-ERROR watchdog\n"); fflush(stdout); _exit(2); }
+  ctl_cur_neutral = neutral;
   int next = ctl_pick(p, spin);
   if (ctl_sched_out) fprintf(ctl_sched_out, "%d\n", next);
   if (next != p) {
@@ -229,6 +246,7 @@ static void ctl_init(int nworkers) {
   ctl_rng = ctl_rng * 0x9E3779B97F4A7C15ULL + 12345;
   if ((s = getenv("CTL_SWITCH_DEN"))) ctl_switch_den = atoi(s) > 0 ? atoi(s) : 4;
   if ((s = getenv("CTL_SPIN_LIMIT"))) ctl_spin_limit = atol(s);
+  if ((s = getenv("CTL_DEMOTE_AT"))) ctl_demote_at = atol(s);
   if ((s = getenv("CTL_LOG"))) { ctl_log = fopen(s, "w"); if (ctl_log) setvbuf(ctl_log, 0, _IOLBF, 0); }       /* line buffered: survives a crash */
   if ((s = getenv("CTL_SCHED_OUT"))) { ctl_sched_out = fopen(s, "w"); if (ctl_sched_out) setvbuf(ctl_sched_out, 0, _IOLBF, 0); }
   if ((s = getenv("CTL_REPLAY"))) {
